@@ -162,6 +162,39 @@ fn run_api(bytes: &[u8]) -> Result<(usize, usize), (String, String)> {
             }
         }
     }
+    // strings the host still holds when it resets the interpreter: a text built afterwards with the
+    // same bytes must be the very object the host holds (otherwise the two would compare unequal in a
+    // program that is handed both). Only held strings are checked; what the interpreter does with
+    // strings nobody holds is its own business.
+    if rd.chance(1, 2) {
+        let k = 1 + rd.below(40);
+        let mut held: Vec<(String, yarel::memory::Root<yarel::object::ObjString>)> = Vec::new();
+        for j in 0..k {
+            let text = if rd.flag() { text_of(j * stride) } else { format!("held-{}-é", j) };
+            let g = vm.new_gc_obj_string(&text);
+            held.push((text, g.as_root()));
+        }
+        vm.reset();
+        // some churn, so that freed memory (if any) is reused
+        for j in 0..(50 + rd.below(500)) {
+            let _ = vm.new_gc_obj_string(&format!("after-reset-{}", j));
+        }
+        for (text, root) in &held {
+            let again = vm.new_gc_obj_string(text);
+            let a = &**root as *const _ as *const () as usize;
+            let b = &*again as *const _ as *const () as usize;
+            if root.as_str() != text.as_str() {
+                return Err(("api-held-string-changed".into(), format!("a string the host holds across reset() read {:?} before and {:?} after", text, root.as_str())));
+            }
+            if a != b {
+                return Err((
+                    "api-equal-contents-two-objects".into(),
+                    format!("{:?}: the host holds this string across reset(); the same bytes built afterwards are a second object ({:#x} vs {:#x})", text, a, b),
+                ));
+            }
+        }
+        drop(held);
+    }
     let _ = s.finish();
     Ok((seen.len(), repeats))
 }
@@ -293,6 +326,19 @@ fn run_language(bytes: &[u8]) -> Result<usize, (String, String)> {
             vec!["global value", "method value", "field abd", "module attr", "module attr", "field shadows", "reassigned"].into_iter().map(String::from).collect(),
         ),
     ];
+    // messages of built-in errors are strings like any other: two of them with the same bytes are equal
+    // and select the same map entry (the texts themselves are not pinned, only the relation to bytes)
+    let mut snippets = snippets;
+    {
+        const FAILS: &[&str] = &["[][3];", "nil + 1;", "\"abc\".find(1);", "undefined_name_zq;", "(1).nope;", "[1].push();", "\"é\"[1];", "(0..3)[9];", "Fiber.yield(1);"];
+        let f1 = FAILS[rd.below(FAILS.len())];
+        let f2 = if rd.chance(2, 3) { f1 } else { FAILS[rd.below(FAILS.len())] };
+        let src = format!(
+            "var ea = nil;\nvar eb = nil;\ntry {{ {} }} catch e {{ ea = e.context; }}\nprint(churn({}));\ntry {{ {} }} catch e {{ eb = e.context; }}\nprint((ea == eb) == (ea.to_bytes() == eb.to_bytes()));\nprint({{ea: 1}}.has_key(eb) == (ea == eb));\nprint(ea == String.from_utf8(ea.to_bytes()));\nprint({{(ea, 1): 1}}.has_key((String.from_utf8(eb.to_bytes()), 1)) == (ea == eb));\nprint((ea + \"\") == ea);\n",
+            f1, 10 + churn % 200, f2
+        );
+        snippets.push((src, vec![(10 + churn % 200).to_string(), "true".into(), "true".into(), "true".into(), "true".into(), "true".into()]));
+    }
     let mut all = String::new();
     for (src, expect) in &snippets {
         all.push_str(src);
@@ -378,7 +424,7 @@ impl Property for C11 {
     }
 
     fn rule(&self) -> String {
-        "cases: (table_exhaustive) every history of up to 6 intern/lookup operations over 4 texts under 3 hash functions (all texts one hash; shared low bits; the real hash) — thorough enumerates all of them, quick those whose last two operations are the simplest; (table_random) histories of up to 3x each growth point (4..4096 slots) on the interpreter's own intern-table type driven through a hook with harness-chosen hash functions: identical full hashes, identical low k bits (long probe chains, wrap-around), real hashes with the low 12 bits cleared, real hashes; (api) 200-3200 calls of Vm::new_gc_obj_string over multi-byte texts, revisits, and texts found by search to collide in the low 12 bits of the real hash; (language) the same contents (3-4100 bytes, lengths around multiples of 8, beyond 32, and around 256, 1024 and 4096) built by two of 16 routes (literal, escapes, +, interpolation, slices and split pieces that start at every byte offset 0-7 inside their source string, replace, String.from, from_utf8, from_code_points, from_ascii, iteration; a quarter of the cases use the text of a number, boolean or nil produced by String.from, by an interpolation consisting of that one expression, nested or inside a lambda, by concatenation, slicing or written out) with 50-3000 strings of churn in between and a one-byte near miss, compared with ==, used as map keys alone and inside tuples, and names (global, method, field, module attribute) resolved across five separately compiled snippets on one interpreter. Oracle: intern-set model keyed by (hash, bytes): same key <=> same entry, new key <=> new distinct entry, every entry still found after every growth; pointer identity <=> byte equality at the API; outputs known by construction at language level. Non-trivial: the history crosses a growth with a collision chain of >=3 entries, or any api/language case; distinct by the case bytes.".into()
+        "cases: (table_exhaustive) every history of up to 6 intern/lookup operations over 4 texts under 3 hash functions (all texts one hash; shared low bits; the real hash) — thorough enumerates all of them, quick those whose last two operations are the simplest; (table_random) histories of up to 3x each growth point (4..4096 slots) on the interpreter's own intern-table type driven through a hook with harness-chosen hash functions: identical full hashes, identical low k bits (long probe chains, wrap-around), real hashes with the low 12 bits cleared, real hashes; (api) 200-3200 calls of Vm::new_gc_obj_string over multi-byte texts, revisits, and texts found by search to collide in the low 12 bits of the real hash; (language) the same contents (3-4100 bytes, lengths around multiples of 8, beyond 32, and around 256, 1024 and 4096) built by two of 16 routes (literal, escapes, +, interpolation, slices and split pieces that start at every byte offset 0-7 inside their source string, replace, String.from, from_utf8, from_code_points, from_ascii, iteration; a quarter of the cases use the text of a number, boolean or nil produced by String.from, by an interpolation consisting of that one expression, nested or inside a lambda, by concatenation, slicing or written out) with 50-3000 strings of churn in between and a one-byte near miss, compared with ==, used as map keys alone and inside tuples, names (global, method, field, module attribute) resolved across separately compiled snippets on one interpreter, and the messages of two caught built-in errors (equal exactly when their bytes are, as values and as map keys); (api) additionally holds 1-40 strings as roots across Vm::reset() and requires the same bytes built afterwards to be the very objects held. Oracle: intern-set model keyed by (hash, bytes): same key <=> same entry, new key <=> new distinct entry, every entry still found after every growth; pointer identity <=> byte equality at the API; outputs known by construction at language level. Non-trivial: the history crosses a growth with a collision chain of >=3 entries, or any api/language case; distinct by the case bytes.".into()
     }
 
     fn render(&self, family: &str, bytes: &[u8]) -> String {
